@@ -353,8 +353,13 @@ fn one_case(opts: &Opts, idx: u64, rng: &mut Rng, case_id: &str, mut shared: &mu
                 items.push(d); // duplicates / ties
             }
             if heavy {
+                // several long items whose scores differ, in an order that is not the sorted one
                 items.insert(rng.below(items.len() + 1), hay_s.clone());
+                items.push(format!("{}{hay_s}", rng.pick(&['x', ' ', '/'])));
                 items.push(hay_s.clone());
+                items.insert(rng.below(items.len() + 1), format!("{hay_s} {hay_s}"));
+                let cut: String = hay_s.chars().skip(rng.range(1, 40)).collect();
+                items.insert(rng.below(items.len() + 1), cut);
             }
             let mut expected: Vec<(usize, u32)> = Vec::new();
             for (k, it) in items.iter().enumerate() {
